@@ -16,7 +16,7 @@ RULE = ("Unitaries on 2-8 (10 thorough) modes of kinds haar / identity / permuta
         "nested heralded sub-circuits). Default model: mapped circuit consists of barriers, phase shifters and "
         "adjacent-mode beam splitters only, U equals the original (1e-8), heralds equal, phases in [0, 2pi]. "
         "Error models: each of bs_reflectivity / loss / phase_offset drawn from Constant | Gaussian(center, sigma, "
-        "bounds 0.3-3 sigma around the centre) | TopHat, generated seed: every reflectivity / loss in the mapped "
+        "bounds 0.3-3 sigma around the centre, on both sides / one side only / none) | TopHat, generated seed: every reflectivity / loss in the mapped "
         "circuit and 200 direct draws lie within the declared bounds, phases minus ideal phases (mod 2pi) lie "
         "within the offset bounds, the same seed gives the identical circuit, U_full is unitary and U has "
         "singular values <= 1. Non-trivial = a unitary with an exactly-zero or < 1e-8 entry, or a non-constant "
@@ -25,7 +25,8 @@ ASSUMPTIONS = [
     "only lossless circuits are mapped (the property's domain)",
     "the upper end of the phase interval is accepted closed in floating point (phase <= float(2*pi))",
     "Gaussian bounds always keep >= 0.3 sigma on each side of the centre (stricter bounds are documented as the "
-    "user's responsibility)",
+    "user's responsibility); an open side of a reflectivity / loss Gaussian is >= 10 sigma away from 0 and 1, so "
+    "that an unbounded draw is never an invalid component value",
 ]
 
 
